@@ -773,6 +773,291 @@ def mirror_facts(src, xsrc):
     return out
 
 
+class StateAbsInt:
+    """Possible values of self.state at the exits of an IkeSa method, per entry state: a small abstract interpreter
+    over the statement forms ikesa.py uses (assignments of literal states, tests on self.state, calls of self.*
+    methods, try/except, loops).  Fail closed on anything that assigns self.state in another way."""
+
+    def __init__(self, src):
+        self.src = src
+        self.vals = dict(src.enum('IkeSa.State'))
+        self.fns = {f.name: f for f in src.cls('IkeSa').body if isinstance(f, ast.FunctionDef)}
+        self.memo = {}
+        self.active = set()
+        self._raised = set()
+
+    def state_of(self, node):
+        dn = dotted_name(node)
+        if dn and dn.startswith('IkeSa.State.') and dn.split('.')[-1] in self.vals:
+            return self.vals[dn.split('.')[-1]]
+        if isinstance(node, ast.BinOp) and isinstance(node.op, ast.Add):
+            return self.state_of(node.left) + self.src.lit(node.right)
+        return None
+
+    def test_filter(self, test, S):
+        """(S_true, S_false) if the test speaks about self.state only, else None"""
+        if isinstance(test, ast.Compare) and len(test.ops) == 1 and ast.unparse(test.left) == 'self.state':
+            op, rhs = test.ops[0], test.comparators[0]
+            if isinstance(op, (ast.Eq, ast.NotEq)):
+                v = self.state_of(rhs)
+                if v is None:
+                    return None
+                t = {s for s in S if s == v}
+                return (t, S - t) if isinstance(op, ast.Eq) else (S - t, t)
+            if isinstance(op, (ast.In, ast.NotIn)):
+                if isinstance(rhs, (ast.Tuple, ast.List)):
+                    vs = [self.state_of(e) for e in rhs.elts]
+                elif isinstance(rhs, ast.Call) and dotted_name(rhs.func) == 'range':
+                    lo, hi = self.state_of(rhs.args[0]), self.state_of(rhs.args[1])
+                    vs = None if lo is None or hi is None else [v for v in self.vals.values() if lo <= v < hi]
+                else:
+                    return None
+                if vs is None or None in vs:
+                    return None
+                t = {s for s in S if s in vs}
+                return (t, S - t) if isinstance(op, ast.In) else (S - t, t)
+        if isinstance(test, ast.BoolOp) and isinstance(test.op, ast.And):
+            # conjunction: the true branch satisfies every state conjunct; the false branch is not narrowed
+            T = set(S)
+            for v in test.values:
+                r = self.test_filter(v, T)
+                if r is not None:
+                    T = r[0]
+            return (T, set(S))
+        return None
+
+    def calls_in(self, node):
+        out = []
+        for n in ast.walk(node):
+            if isinstance(n, ast.Call):
+                dn = dotted_name(n.func) or ''
+                if dn.startswith('self.') and dn.count('.') == 1 and dn[5:] in self.fns:
+                    out.append(dn[5:])
+                if dn == 'self._check_in_states':
+                    out.append(('check', n.args[1]))
+        return out
+
+    def run_fn(self, name, S):
+        key = (name, frozenset(S))
+        if key in self.memo:
+            return self.memo[key]
+        if key in self.active:
+            return set(S)
+        self.active.add(key)
+        exits = set()
+        end = self.block(self.fns[name].body, set(S), exits)
+        res = exits | end | self._raised
+        self._raised = set()
+        self.active.discard(key)
+        self.memo[key] = res
+        return res
+
+    def apply_calls(self, node, S):
+        for c in self.calls_in(node):
+            if isinstance(c, tuple):
+                r = self.test_filter(ast.Compare(left=ast.parse('self.state', mode='eval').body, ops=[ast.In()],
+                                                 comparators=[c[1]]), S)
+                if r is not None:
+                    self._raised |= r[1]   # IkeSaStateError: exit with the unchanged state (the shell then sets DELETED)
+                    S = r[0]
+            else:
+                S = self.run_fn(c, S)
+        return S
+
+    def block(self, stmts, S, exits):
+        for st in stmts:
+            if not S:
+                return S
+            if isinstance(st, ast.Assign) and len(st.targets) == 1 and ast.unparse(st.targets[0]) == 'self.state':
+                S = self.apply_calls(st.value, S)
+                vs = [st.value] if not isinstance(st.value, ast.IfExp) else [st.value.body, st.value.orelse]
+                new = set()
+                for v in vs:
+                    x = self.state_of(v)
+                    if x is None:
+                        if ast.unparse(v) == 'prev_state':
+                            new |= S
+                            continue
+                        self.src.fail(st, 'state assignment outside the subset')
+                    new.add(x)
+                if isinstance(st.value, ast.IfExp):
+                    r = self.test_filter(st.value.test, S)
+                    if r is not None:
+                        new = set()
+                        if r[0]:
+                            new.add(self.state_of(st.value.body))
+                        if r[1]:
+                            new.add(self.state_of(st.value.orelse))
+                S = new
+            elif isinstance(st, ast.Return):
+                if st.value is not None:
+                    S = self.apply_calls(st.value, S)
+                exits |= S
+                return set()
+            elif isinstance(st, ast.Raise):
+                exits |= S
+                return set()
+            elif isinstance(st, ast.Assert):
+                r = self.test_filter(st.test, S)
+                if r is not None:
+                    exits |= r[1]       # AssertionError: exit with the state unchanged
+                    S = r[0]
+            elif isinstance(st, ast.If):
+                S = self.apply_calls(st.test, S)
+                r = self.test_filter(st.test, S)
+                a, b = (r if r is not None else (set(S), set(S)))
+                ea = self.block(st.body, a, exits)
+                eb = self.block(st.orelse, b, exits) if st.orelse else b
+                S = ea | eb
+            elif isinstance(st, ast.Try):
+                inner_exits = set()
+                body_end = self.block(st.body, set(S), inner_exits)
+                # an exception may be raised anywhere in the body: the handlers see any state the body could be in
+                seen = set(S) | body_end | inner_exits | self.assigned_in(st.body, S)
+                hand_end = set()
+                for h in st.handlers:
+                    hand_end |= self.block(h.body, set(seen), exits)
+                # `return`/`raise` inside the body leave the function unless a handler catches the raise: keep both
+                exits |= inner_exits
+                S = body_end | hand_end
+                if st.finalbody:
+                    S = self.block(st.finalbody, S, exits)
+            elif isinstance(st, (ast.For, ast.While)):
+                S0 = set(S)
+                for _ in range(3):
+                    S0 |= self.block(st.body, set(S0), exits)
+                S = S0
+            elif isinstance(st, ast.With):
+                S = self.block(st.body, S, exits)
+            else:
+                S = self.apply_calls(st, S)
+        return S
+
+    def assigned_in(self, stmts, S):
+        out = set()
+        for st in stmts:
+            for n in ast.walk(st):
+                if isinstance(n, ast.Assign) and ast.unparse(n.targets[0]) == 'self.state':
+                    for v in ([n.value] if not isinstance(n.value, ast.IfExp) else [n.value.body, n.value.orelse]):
+                        x = self.state_of(v)
+                        if x is not None:
+                            out.add(x)
+                if isinstance(n, ast.Call):
+                    dn = dotted_name(n.func) or ''
+                    if dn.startswith('self.') and dn.count('.') == 1 and dn[5:] in self.fns:
+                        out |= self.run_fn(dn[5:], set(self.vals.values())) - set(self.vals.values()) | \
+                            self.all_assigned(dn[5:])
+        return out
+
+    def all_assigned(self, name, seen=None):
+        seen = seen or set()
+        if name in seen:
+            return set()
+        seen.add(name)
+        out = set()
+        for n in ast.walk(self.fns[name]):
+            if isinstance(n, ast.Assign) and ast.unparse(n.targets[0]) == 'self.state':
+                for v in ([n.value] if not isinstance(n.value, ast.IfExp) else [n.value.body, n.value.orelse]):
+                    x = self.state_of(v)
+                    if x is not None:
+                        out.add(x)
+            if isinstance(n, ast.Call):
+                dn = dotted_name(n.func) or ''
+                if dn.startswith('self.') and dn.count('.') == 1 and dn[5:] in self.fns:
+                    out |= self.all_assigned(dn[5:], seen)
+        return out
+
+
+def transition_facts(src):
+    """C09: for every method of IkeSa the states it may assign (directly or through the self.* methods it calls), and
+    the collision rules of the CREATE_CHILD_SA request handlers as decision functions."""
+    vals = dict(src.enum('IkeSa.State'))
+    cls = src.cls('IkeSa')
+    direct, calls = {}, {}
+    for fn in cls.body:
+        if not isinstance(fn, ast.FunctionDef):
+            continue
+        d, c = set(), set()
+        for n in ast.walk(fn):
+            if isinstance(n, ast.Assign) and len(n.targets) == 1 and ast.unparse(n.targets[0]) in ('self.state',
+                                                                                                   'self.new_ike_sa.state'):
+                if ast.unparse(n.targets[0]) == 'self.new_ike_sa.state':
+                    continue        # state of the successor object, not of this IkeSa
+                vs = [n.value] if not isinstance(n.value, ast.IfExp) else [n.value.body, n.value.orelse]
+                for v in vs:
+                    dn = dotted_name(v)
+                    if not (dn and dn.startswith('IkeSa.State.') and dn.split('.')[-1] in vals):
+                        src.fail(n, 'state assignment outside the subset')
+                    d.add(vals[dn.split('.')[-1]])
+            if isinstance(n, ast.Call):
+                dn = dotted_name(n.func) or ''
+                if dn.startswith('self.') and dn.count('.') == 1:
+                    c.add(dn[5:])
+        direct[fn.name], calls[fn.name] = d, c
+    names = set(direct)
+    closure = {f: set(direct[f]) for f in names}
+    changed = True
+    while changed:
+        changed = False
+        for f in names:
+            for g in calls[f] & names:
+                if not closure[g] <= closure[f]:
+                    closure[f] |= closure[g]
+                    changed = True
+    out = {'assigns': {f: sorted(closure[f]) for f in sorted(names)}}
+    ai = StateAbsInt(src)
+    allst = sorted(vals.values())
+    out['exits'] = {f: {st: sorted(ai.run_fn(f, {st})) for st in allst} for f in sorted(names)}
+    # collision rules: the ordered (test -> exception) chain at the head of _process_create_child_sa_negotiation_req
+    fn = src.func('IkeSa._process_create_child_sa_negotiation_req')
+    tr = next(s for s in _stmts(fn) if isinstance(s, ast.Try))
+    body = tr.body
+    env = _states_env(src)
+    env.update({'self.state': 'st', 'found': ('found', 'bool'), 'same_deleting': ('same_deleting', 'bool'),
+                'same_rekeying': ('same_rekeying', 'bool')})
+
+    class Sub(ast.NodeTransformer):
+        def visit_Compare(self, node):
+            t = ast.unparse(node)
+            m = {'rekeyed_child_sa is None': ast.UnaryOp(op=ast.Not(), operand=ast.Name(id='found', ctx=ast.Load())),
+                 'rekeyed_child_sa == self.deleting_child_sa': ast.Name(id='same_deleting', ctx=ast.Load()),
+                 'rekeyed_child_sa == self.rekeying_child_sa': ast.Name(id='same_rekeying', ctx=ast.Load())}
+            if t in m:
+                return m[t]
+            return self.generic_visit(node)
+
+    def g(test):
+        t2 = ast.fix_missing_locations(Sub().visit(ast.parse(ast.unparse(test), mode='eval').body))
+        return expr_to_gallina(src, t2, env)[0]
+
+    def raised(stmts):
+        r = [s for s in stmts if not _is_log(s)]
+        if len(r) != 1 or not isinstance(r[0], ast.Raise):
+            src.fail(stmts[0], 'collision rule must raise')
+        return dotted_name(r[0].exc.func)
+    busy = next((s for s in body if isinstance(s, ast.If) and 'REK_IKE_SA_REQ_SENT' in ast.unparse(s.test)), None)
+    if busy is None or raised(busy.body) != 'TemporaryFailure':
+        src.fail(fn, 'CHILD_SA request while the IKE_SA is being rekeyed/deleted must raise TemporaryFailure')
+    out['child_busy'] = g(busy.test)
+    rk = next((s for s in body if isinstance(s, ast.If) and ast.unparse(s.test) == 'rekey_notify'), None)
+    if rk is None:
+        src.fail(fn, 'rekey branch not found')
+    ifs = [s for s in rk.body if isinstance(s, ast.If)]
+    got = [(g(s.test), raised(s.body)) for s in ifs[:3]]
+    if [e for _, e in got] != ['ChildSaNotFound', 'TemporaryFailure', 'TemporaryFailure']:
+        src.fail(rk, f'rekey collision rules changed: {[e for _, e in got]}')
+    out['rekey_not_found'], out['rekey_being_deleted'], out['rekey_being_rekeyed'] = [t for t, _ in got]
+    if body.index(busy) > body.index(rk):
+        src.fail(fn, 'collision rule order changed')
+    # IKE_SA rekey request while busy
+    fn = src.func('IkeSa.process_create_child_sa_request')
+    ik = next((n for n in ast.walk(fn) if isinstance(n, ast.If) and ast.unparse(n.test) == 'self.state != IkeSa.State.ESTABLISHED'), None)
+    if ik is None or 'PayloadNOTIFY.from_exception(TemporaryFailure())' not in ast.unparse(ik.body):
+        src.fail(fn, 'IKE_SA rekey request while busy must be answered with TEMPORARY_FAILURE')
+    out['ike_rekey_busy'] = expr_to_gallina(src, ik.test, env)[0]
+    return out
+
+
 def translate(ctx=None):
     src = pyast.Src(os.path.join(core.REPO, 'ikesa.py'))
     msrc = pyast.Src(os.path.join(core.REPO, 'message.py'))
@@ -788,6 +1073,7 @@ def translate(ctx=None):
     cook = cookie_facts(src, msrc)
     auth = auth_facts(src, msrc)
     mir = mirror_facts(src, pyast.Src(os.path.join(core.REPO, 'xfrm.py')))
+    trn = transition_facts(src)
     adm = admission_facts(src)
     ctl = controller_facts(csrc, src)
     exd = dict(exch)
@@ -884,6 +1170,30 @@ def translate(ctx=None):
     L.append(';\n'.join(rows) + '\n].')
     for i, n in enumerate(names):
         L.append(f'Definition FN_{n} : nat := {i}.')
+    L.append('\n(* C09: states each handler / generator may assign (transitively through self.* calls) *)')
+    L.append('Definition assigns : list (nat * list Z) := [')
+    L.append(';\n'.join(f'  ({names.index(f)}%nat, [' + '; '.join(map(str, trn['assigns'][f])) + f'])  (* {f} *)'
+                        for f in names) + '\n].')
+    L.append('\n(* C09: possible states at the exits of each entry point, per entry state (abstract interpretation) *)')
+    entry_points = ['process_ike_sa_init_request', 'process_ike_auth_request', 'process_informational_request',
+                    'process_create_child_sa_request', 'process_ike_sa_init_response', 'process_ike_auth_response',
+                    'process_create_child_sa_response', 'process_informational_response', 'process_acquire',
+                    'process_expire', 'check_retransmission_timer', 'check_dead_peer_detection_timer',
+                    'check_rekey_ike_sa_timer', '_process_request', '_process_response']
+    rows = []
+    for f in entry_points:
+        for st_, ex in trn['exits'][f].items():
+            rows.append(f'  ({st_}, [' + '; '.join(map(str, ex)) + f'])  (* {f} *)')
+    L.append('Definition entry_exits : list (Z * list Z) := [\n' + ';\n'.join(rows) + '\n].')
+    for f in ('process_acquire', 'process_expire', 'check_retransmission_timer', 'check_dead_peer_detection_timer',
+              'check_rekey_ike_sa_timer', '_process_request', '_process_response'):
+        L.append(f'Definition assigns_{f.strip("_")} : list Z := [' + '; '.join(map(str, trn['assigns'][f])) + '].')
+    L.append('\n(* C09: collision rules (RFC 7296 2.25) of the CREATE_CHILD_SA request handlers, in source order *)')
+    L.append(f'Definition child_request_while_ike_busy (st : Z) : bool := {trn["child_busy"]}.')
+    L.append(f'Definition rekey_unknown_child (found : bool) : bool := {trn["rekey_not_found"]}.')
+    L.append(f'Definition rekey_child_being_deleted (st : Z) (same_deleting : bool) : bool := {trn["rekey_being_deleted"]}.')
+    L.append(f'Definition rekey_child_being_rekeyed (st : Z) (same_rekeying : bool) : bool := {trn["rekey_being_rekeyed"]}.')
+    L.append(f'Definition ike_rekey_while_busy (st : Z) : bool := {trn["ike_rekey_busy"]}.')
     text = '\n'.join(L) + '\n'
     pyast.write_if_changed(os.path.join(core.cluster_dir(CLUSTER), 'Gen', 'IkeFacts.v'), text)
     return text
